@@ -37,6 +37,11 @@ def frames(ctx: Ctx):
             else:
                 f = bytes(rng.randrange(256) for _ in range(n))
             out.append(f)
+        # the frame's own last byte(s) equal the PKCS#7 pad byte its length calls for (and, for n = 16k, a frame that is one full block of 0x10)
+        pad = 16 - n % 16
+        for rep in (1, 2, pad):
+            if 0 < rep <= n:
+                out.append(bytes(rng.randrange(256) for _ in range(n - rep)) + bytes([pad]) * rep)
     return out
 
 
